@@ -22,36 +22,56 @@ NA_FIXED = {
 
 TECH = {
     'C01': 'table/relation extraction (precedence order, arity, pop relation), '
-           'regex-AST language analysis, writer/reader symmetry on ast',
+           'regex-AST language analysis, writer/reader symmetry on ast, '
+           'loss-free derivation of the rendered text from the argument tokens',
     'C02': 'registry partial evaluation + AST operator-table agreement, '
-           'dominance of error check, type-rank relation',
+           'dominance of error check, type-rank relation, in-place-write '
+           'effect analysis on the operator cores and helpers',
     'C03': 'order-determinism dataflow (hash-ordered choice escape) and '
-           'positional-protocol sibling agreement',
+           'positional-protocol sibling agreement, snapshot-freshness '
+           'dataflow on the CFG (exception edges included), cache-key '
+           'dependence, numeric row-bound comparison',
     'C04': 'regex-AST group/consumer exhaustiveness, sibling agreement of fast '
-           'paths, constant-table agreement',
+           'paths, constant-table agreement, enumerate-before-filter '
+           'derivation of external-link indices, cache-key dependence',
     'C05': 'must-pass-through on evaluation paths, sibling agreement of '
            'reshape helpers',
     'C06': 'operator-table agreement, lattice-direction and inclusive-bound '
-           'belief consistency',
+           'belief consistency, loop-carried dependence of the set-difference '
+           'split set, global/memoised-result write effects',
     'C07': 'interprocedural alias/effect analysis (in-place writes to '
            'parameters), cache-reset must-pass-through, sibling agreement',
-    'C08': 'dominator (must-precede) rules on the two compile functions',
-    'C09': 'writer/reader tag exhaustiveness and quote-escape symmetry',
+    'C08': 'dominator (must-precede) rules on the two compile functions, '
+           'in-place-write effect analysis on everything a compiled function '
+           'runs',
+    'C09': 'writer/reader tag exhaustiveness and quote-escape symmetry, '
+           'export reads only state that survives __getstate__, reference '
+           'table identity between the two load paths',
     'C10': 'registry table agreement (lazy set, guard positions), '
-           'order-determinism of cut-node choice',
+           'order-determinism of cut-node choice (loops and short-circuit '
+           'reducers), per-component definition of the search state, '
+           'accumulate-not-overwrite on the cut map',
     'C11': 'registry wrapper-chain analysis, exception-escape analysis, '
-           'check-before-use (error-dropping sinks)',
+           'check-before-use (error-dropping sinks), must-use dataflow of '
+           'unchecked arguments on value-returning paths, guarded return '
+           'leaves of the finiteness funnel',
     'C13': 'call-graph reachability of nondeterminism sources + '
            'who-may-register (effect discipline), dominance on pre-evaluation '
-           'sites',
+           'sites, whole-value registration of compiled token functions',
     'C14': 'three-site exception-class agreement, handler breadth '
-           '(must-pass-through)',
-    'C15': 'work-list discipline and drop-path classification on CFG',
+           '(must-pass-through), compile-before-discard dominance in '
+           'Cell.compile, cache-key dependence',
+    'C15': 'work-list discipline and drop-path classification on CFG, '
+           'snapshot-freshness dataflow, numeric row-bound comparison',
     'C17': 'pickling-hook/attribute-set sibling agreement, module-level token '
-           'inventory, global-write effect analysis',
+           'inventory, global-write effect analysis, reads of attributes '
+           'emptied by __getstate__ from copy-stable operations, shared '
+           'mutable defaults installed by state-restoring hooks',
     'C18': 'interprocedural exception-escape analysis from Parser.ast, '
-           'regex-language containment',
-    'C19': 'call-graph sibling agreement, type-guard dominance',
+           'regex-language containment, handler coverage of int() on '
+           'unbounded digit runs',
+    'C19': 'call-graph sibling agreement, type-guard dominance, slot-memo '
+           'dependence, in-place-write effect analysis on lookup cores',
     'C20': 'constant folding and table agreement against Excel limits',
 }
 
